@@ -14,6 +14,13 @@ using namespace xp;
 
 namespace {
 
+// "far larger" lengths (C03): what a 32-bit truncation of the length would turn into 0, a small
+// legal size, or the maximum; the library must refuse them with EMSGSIZE before reading anything
+const uint32_t FAR = 0xffffff00u;
+const size_t FAR_LEN[] = {((size_t)1 << 32) + 1, ((size_t)1 << 32) + 5, ((size_t)1 << 32) + 65535, ((size_t)3 << 32) + 4711,
+                          (size_t)1 << 32, ~(size_t)0, ((size_t)1 << 63) + 100};
+
+
 enum Mode { M_C01, M_C02, M_C03, M_C17 };
 Mode g_mode = M_C01;
 
@@ -265,6 +272,13 @@ struct Run {
         Side &peer = s[1 - i];
         if (sd.ep.closed) return Outcome::pass();
         Dir &out = d[i];
+        size_t api_len = len;
+        if (len >= FAR) {
+            // the length passed to xcm_send is FAR_LEN[..]; the buffer holds 64 KiB (a correct
+            // library refuses on the length alone; one that truncates it reads at most 65535 bytes)
+            api_len = FAR_LEN[len - FAR];
+            len = 65536;
+        }
         if (g_buf.size() < len) g_buf.resize(len);
         // exact-size heap copy so that over-reads are visible to ASan
         uint8_t *buf = (uint8_t *)malloc(len ? len : 1);
@@ -285,7 +299,7 @@ struct Run {
             int eintr_n = eintr_next;
             eintr_next = 0;
             if (eintr_n) { sh_eintr_at(eintr_n); }
-            Outcome bo = blocking_call(i, BlockOp::SEND, buf, len, &rc, &e);
+            Outcome bo = blocking_call(i, BlockOp::SEND, buf, api_len, &rc, &e);
             bool hit = eintr_n && rc < 0 && e == EINTR;
             sh_eintr_at(0);
             if (hit) { c.cls("eintr-injected-into-blocking-send"); eintr_hits++; }
@@ -313,11 +327,12 @@ struct Run {
                 if (rc < 0 && e != EAGAIN) failed_blocking_bytes = true;
             }
         } else {
-            rc = x_send(sd.ep, buf, len);
+            rc = x_send(sd.ep, buf, api_len);
             e = errno;
         }
         (void)tentative_bytes; (void)was_blocking;
-        c.log("%s %ssend(tag=%u,len=%u) -> %d %s", sd.name, sd.ep.blocking ? "blocking " : "", tag, len, rc, rc < 0 ? errname(e) : "");
+        c.log("%s %ssend(tag=%u,len=%zu) -> %d %s", sd.name, sd.ep.blocking ? "blocking " : "", tag, api_len, rc, rc < 0 ? errname(e) : "");
+        if (api_len != len) c.cls("send-length-beyond-32-bits");
         if (tp == BTLS && rc < 0 && e == EAGAIN && excluded("btls-refused-send-not-retried-identically")) {
             // Known finding (see known_findings.json): a btls send refused with
             // EAGAIN leaves its record inside OpenSSL, which transmits it later
@@ -349,7 +364,7 @@ struct Run {
         if (!bs) {
             VF_CHECK(rc == 0 || rc == -1, "C01: xcm_send returned %d on a messaging socket", rc);
             if (len == 0) VF_CHECK(rc == -1 && e == EINVAL, "C03: zero-length send: rc=%d errno=%s (want -1/EINVAL)", rc, errname(e));
-            if (len > 65535) VF_CHECK(rc == -1 && e == EMSGSIZE, "C03: %u-byte send: rc=%d errno=%s (want -1/EMSGSIZE)", len, rc, errname(e));
+            if (len > 65535) VF_CHECK(rc == -1 && e == EMSGSIZE, "C03: %zu-byte send: rc=%d errno=%s (want -1/EMSGSIZE)", api_len, rc, errname(e));
             if (rc == 0) {
                 out.msgs.push_back({tag, len});
                 out.acc_msgs++;
@@ -547,8 +562,9 @@ uint32_t pick_len(Dec &dd, bool bs, bool c03)
         return dd.ch(2) ? (uint32_t)dd.pick(BB) : (uint32_t)dd.range(1, 70000);
     }
     if (c03 && dd.ch(6) == 0) {
-        static const int X[] = {0, 65536, 65537, 1 << 20, 32 << 20};
-        return (uint32_t)dd.pick(X);
+        // FAR + i: a length beyond 32 bits (see FAR_LEN), offered with a 64 KiB buffer
+        static const uint32_t X[] = {0, 65536, 65537, 1 << 20, 32 << 20, FAR + 0, FAR + 1, FAR + 2, FAR + 3, FAR + 4, FAR + 5, FAR + 6};
+        return dd.pick(X);
     }
     switch (dd.ch(4)) {
     case 0: return (uint32_t)dd.pick(B);
@@ -574,6 +590,9 @@ public:
         const char *m = getenv("VF_PROP");
         std::string mm = m ? m : "C01";
         g_mode = mm == "C02" ? M_C02 : mm == "C03" ? M_C03 : mm == "C17" ? M_C17 : M_C01;
+        // XCM's default tcp.user_timeout is 3 s; a loaded machine can stall a scripted pause
+        // for longer than that, which is a property of the load, not of the library
+        sh_override_user_timeout(600000);
         World::get();
     }
 
